@@ -101,6 +101,13 @@ def gen_case(rng):
     if len(k) >= 3 and rng.random() < 0.5:
         picks = sorted(rng.sample(range(len(k) - 1), rng.randrange(1, min(4, len(k)))))
         bb = sorted(set(float(k[p]) if (rng.random() < 0.3 and k[p] > 0) else float(0.5 * (k[p] + k[p + 1])) for p in picks))
+    if bb is None and rng.random() < 0.3:
+        import nifty.cl as ift
+        try:
+            bb = [float(x) for x in ift.PowerSpace.useful_binbounds(hp, logarithmic=rng.random() < 0.5, nbin=rng.choice([None, 3, 4]))]
+            ift.PowerSpace(hp, bb)
+        except ValueError:
+            bb = None
     pre = [rng.choice([1, 2, 3])] if rng.random() < 0.3 else []
     post = [rng.choice([2, 3])] if rng.random() < 0.3 else []
     return dict(partner=partner, binbounds=bb, pre=pre, post=post, callable_spectrum=rng.random() < 0.5)
@@ -202,6 +209,40 @@ def plan(ctx, case, rng, reqs, posts):
                             return
         posts.append(post_an)
     ctx.stat("partner:" + case["partner"]["kind"] + (":product" if pre * post > 1 else "") + (":custom" if case.get("binbounds") else ":natural"))
+
+
+def plan_dof(ctx, rng, reqs, posts):
+    """the general DOFDistributor (the mechanism behind PowerDistributor): arbitrary integer dofdex on a regular grid (uniform
+    volume) or a Gauss-Legendre sphere (per-pixel volumes); times / adjoint_times vs the model, bin weights vs the member sums"""
+    import nifty.cl as ift
+    kind = rng.choice(["rg", "rg", "gl"])
+    part = ift.RGSpace((rng.randrange(2, 5), rng.randrange(2, 4)), distances=(0.5, 0.25)) if kind == "rg" else ift.GLSpace(2, 3)
+    n = part.size
+    nb = rng.randrange(1, min(5, n) + 1)
+    dex = list(range(nb)) + [rng.randrange(nb) for _ in range(n - nb)]
+    rng.shuffle(dex)
+    dom = ift.DomainTuple.make(part)
+    dd = ift.DOFDistributor(ift.makeField(dom, np.array(dex, dtype=np.int64).reshape(dom.shape)))
+    case = dict(what="dof", partner=kind, shape=list(part.shape), dofdex=dex)
+    svals = np.array([rng.randrange(-5, 6) for _ in range(nb)], dtype=np.float64)
+    y = dd(ift.makeField(dd.domain, svals))
+    reqs.append(dict(op="distribute", pindex=dex, fibres=[rl(svals)]))
+    posts.append(lambda m, y=y: ctx.compare(dict(case, op="times"), [rl(y.asnumpy().reshape(-1))], m, note="C10 DOFDistributor.times",
+                                             nontrivial=nb > 1))
+    f = np.array([rng.randrange(-5, 6) for _ in range(n)], dtype=np.float64)
+    a = dd.adjoint_times(ift.makeField(dom, f.reshape(dom.shape)))
+    reqs.append(dict(op="adjoint", nbin=nb, pindex=dex, fibres=[rl(f)]))
+    posts.append(lambda m, a=a: ctx.compare(dict(case, op="adjoint"), [rl(a.asnumpy().reshape(-1))], m, note="C10 DOFDistributor.adjoint_times",
+                                             nontrivial=nb > 1))
+    # the DOFSpace it creates carries the bin volumes: member sums of the partner's pixel volumes
+    dv = np.broadcast_to(np.asarray(part.dvol, dtype=np.float64), (n,)) if not np.isscalar(part.dvol) else np.full(n, part.dvol)
+    want = np.bincount(np.array(dex), weights=dv, minlength=nb)
+    got = np.asarray(dd.domain[0].dvol, dtype=np.float64)
+    ctx.case(dict(case, op="weights"), nb > 1)
+    if got.shape != want.shape or not np.allclose(got, want, rtol=1e-13, atol=0):
+        ctx.counterexample(dict(case, op="weights"), "the DOFSpace of a DOFDistributor does not carry the summed member volumes",
+                           dict(what="dof-weights", partner=kind))
+    ctx.stat("dof:" + kind)
 
 
 # ---- oracle ---------------------------------------------------------------------------------------------------------
@@ -372,6 +413,14 @@ def run(ctx):
                      dict(what="raised", error=type(e).__name__))
             if r:
                 ctx.counterexample(dict(c, oseed=0, aspect=aspect), *r)
+    for _ in range(ctx.n(12, 120)):
+        n0, p0 = len(reqs), len(posts)
+        try:
+            plan_dof(ctx, rng, reqs, posts)
+        except Exception as e:
+            del reqs[n0:], posts[p0:]
+            ctx.compare(dict(what="dof-setup"), {"error": type(e).__name__ + ":" + str(e)[:80]}, "ok",
+                        note="C10 DOFDistributor raised on a valid dofdex")
     # several harmonic sub-spaces analysed together (oracle only; the model statement is fibre-wise: analyze_subspace)
     for _ in range(ctx.n(10, 100)):
         c = gen_case(rng)
